@@ -465,7 +465,7 @@ def build_world(workdir, seed, n_genes=24, taxonomy='d2_bal', n_cells_per_leaf=6
                 permute_query_genes=True, n_extra_query_genes=3, n_per_utility=3,
                 ref_encoding='dense', zero_cell=False, n_processors=2, name=None,
                 query_kinds=('pure', 'mix', 'mix', 'noise'), n_unlabelled=0, n_ref_files=1,
-                cells_per_leaf=None):
+                cells_per_leaf=None, name_mapper=None):
     """Build a tiny reference + query world by running the package's own stages.
 
     taxonomy: a name from SHAPES or a spec dict ({'hierarchy': [...], level: {parent: [children]}}).
@@ -521,6 +521,14 @@ def build_world(workdir, seed, n_genes=24, taxonomy='d2_bal', n_cells_per_leaf=6
         if lf is None:
             ref_X[r, :] = rng.integers(50, 400, size=n_genes)
     tree = tree_dict_from_spec(spec, rows_of_leaf)
+    if name_mapper == 'partial':
+        # readable names for the top level only and aliases for some leaves only: the other levels and
+        # nodes fall back to their labels (a partially filled name table is legal)
+        nm = {h[0]: {n: {'name': f'{n}, "{h[0]}" (readable)'} for n in tree[h[0]]}}
+        if len(h) > 1:
+            nm[h[-1]] = {lf: ({'alias': str(100 + i)} if i % 2 else {'name': f'name of {lf}'})
+                         for i, lf in enumerate(leaves) if i % 3 != 2}
+        tree['name_mapper'] = nm
     c2p = child_to_parent(tree)
     obs_cols = {}
     for lv in h:
